@@ -16,30 +16,64 @@ RULE = ("cases = every (configuration, basis index): the basis (n Pauli strings)
 
 
 def plan(tier, seed):
-    t = [("mub", n, c, 0) for (n, c) in oconn.CONFIGS]
+    # one task per configuration, so the table of that configuration is cold when the task starts; three call orders
+    t = [("mub", n, c, (i + seed) % 3) for i, (n, c) in enumerate(oconn.CONFIGS)]
     if tier == "thorough":
-        t += [("mub", n, c, 1) for (n, c) in reversed(oconn.CONFIGS)]   # second process, other call order
+        t += [("mub", n, c, (i + seed + 1) % 3) for i, (n, c) in enumerate(reversed(oconn.CONFIGS))]
     return t
 
 
 def work(task):
+    p, first = judge_family(task)
+    if not p.violations and first:
+        # the caller now does what callers do with their own copies - sort, measure, delete, overwrite - to the very objects
+        # it was handed, and asks again: the family handed out afterwards must be as good as the first one
+        _, n, conn, order = task[:4]
+        for r in first.values():
+            if isinstance(r, list):
+                for x in r[:3]:
+                    if hasattr(x, "measure_all"):
+                        call(x.measure_all)
+                        call(x.x, 0)
+                    elif isinstance(x, list) and x:
+                        x[0] = "I" * n
+                r.reverse()
+                if r:
+                    r.pop()
+            elif isinstance(r, dict):
+                for k in list(r):
+                    r[k] = -1
+        p2, _ = judge_family((task[0], n, conn, (order + 1) % 3, "after-mutation"))
+        for v in p2.violations:
+            v["key"] += " (after the caller edited an earlier result)"
+            v["what"] += " - on a re-request after the caller destructively edited the objects returned by the previous calls"
+        p.merge(p2)
+    return p
+
+
+def judge_family(task):
     from htstabilizer.mub_circuits import get_mubs, get_mub_circuits, get_mub_info
     from htstabilizer.stabilizer_circuits import get_readout_circuit
     from htstabilizer.stabilizer import Stabilizer
-    _, n, conn, order = task
+    _, n, conn, order = task[:4]
     p = Partial()
     case = {"n": n, "conn": conn}
     key = "mub n=%d conn=%s " % (n, conn)
     calls = [("mubs", get_mubs), ("circuits", get_mub_circuits), ("info", get_mub_info)]
-    if order:
-        calls.reverse()
+    if order == 1:
+        calls.reverse()                     # info first (header only), then circuits, then bases
+    elif order == 2:
+        calls = [calls[1], calls[2], calls[0]]
+    p.counters["call order %s" % "-".join(nm for nm, _ in calls)] += 1
+    if not task[-1] == "after-mutation":
+        pass
     res = {}
     for nm, fn in calls:
         ok, r = call(fn, n, conn)
         p.evals += 1
         if not ok:
             p.violate(key + "api-raises", "get_%s(%d, %r) raised %s on an advertised configuration" % (nm, n, conn, exc_name(r)), case)
-            return p
+            return p, None
         res[nm] = r
     mubs, circs, info = res["mubs"], res["circuits"], res["info"]
     want = 2 ** n + 1
@@ -101,7 +135,7 @@ def work(task):
             if got is None or abs(got - v) > 1e-9:
                 p.violate(key + "info " + k, "get_mub_info(%d, %r)[%r] = %r, actual value of the returned circuits: %r" % (n, conn, k, got, v), case)
         p.counters["info dictionaries compared"] += 1
-    return p
+    return p, res
 
 
 def finalize(total, tier, seed):
@@ -112,5 +146,7 @@ def finalize(total, tier, seed):
 
 
 def replay(cj):
-    p = work(("mub", cj["n"], cj["conn"], 0))
-    return p.violations
+    vs = []
+    for order in (0, 1, 2):
+        vs += work(("mub", cj["n"], cj["conn"], order)).violations
+    return vs
